@@ -236,3 +236,116 @@ def wrappers(vc):
     vc.ground("sign_deterministic.default-hash=the-key's", bool(calls) and calls[0].get("digest") == hashlib.sha384(data).digest()
               and calls[0].get("hashfunc") is hashlib.sha384)
     vc.cover("wrappers")
+
+
+# ---------------------------------------------------------------------------------------
+# the layer between the wrappers and the arithmetic: digest -> number -> (r, s) -> encoding, and back.  Each function is
+# run with its callees stubbed (their contracts: C18/digest-to-int, C18/rfc6979.generate_k, C18/verify(sign), the codecs)
+# and the arguments recorded: what is signed is the number of THIS digest under THIS nonce, what is encoded is the (r, s)
+# that came back with the key's order, and verification compares the number of THIS digest with the decoded (r, s).
+
+@proof("C18/keys.digest-layer-hands-over", functions=[(KEYS, "SigningKey.sign_digest"), (KEYS, "SigningKey.sign_number"),
+                                                      (KEYS, "SigningKey.sign_digest_deterministic"), (KEYS, "VerifyingKey.verify_digest")],
+       family=lambda seed, tier: [dict()])
+def digest_layer(vc):
+    import hashlib
+    K = vc.module(KEYS)
+    C = vc.module(CURVES)
+    E = vc.module("register_crypto_plugin.ecdsa.ecdsa")
+    U = vc.module("register_crypto_plugin.ecdsa.util")
+    D = vc.module("register_crypto_plugin.ecdsa.der")
+    curve = C.NIST256p
+    ENT, NUM, KK, DIG, XE = object(), 0xABCDEF12345, 0x77777, b"digest-bytes-of-any-length", b"extra-entropy"
+    saved = dict(tc=K._truncate_and_convert_digest, rr=K.randrange, gk=K.rfc6979.generate_k)
+    try:
+        # --- sign_digest
+        sk = K.SigningKey.from_secret_exponent(0x1234567, curve, hashlib.sha1)
+        tc, sn, se = [], [], []
+        K._truncate_and_convert_digest = lambda *a, **k: (tc.append(_bind("tc", ("digest", "curve", "allow_truncate"), a, k)), NUM)[1]
+        sk.sign_number = lambda *a, **k: (sn.append(_bind("sn", ("number", "entropy", "k"), a, k)), (111, 222))[1]
+        out = sk.sign_digest(DIG, ENT, lambda r, s, order: (se.append((r, s, order)), "ENC")[1], KK, True)
+        vc.ground("sign_digest: number-of-this-digest(curve,allow_truncate)", len(tc) == 1 and tc[0].get("digest") == DIG
+                  and tc[0].get("curve") is curve and tc[0].get("allow_truncate") is True, repr(tc)[:200])
+        vc.ground("sign_digest: signs-that-number-with-the-given-entropy-and-nonce", len(sn) == 1 and sn[0].get("number") == NUM
+                  and sn[0].get("entropy") is ENT and sn[0].get("k") == KK, repr(sn)[:200])
+        vc.ground("sign_digest: encodes-the-(r,s)-that-came-back-with-the-key's-order", out == "ENC" and se == [(111, 222, curve.order)], repr(se)[:200])
+        # --- sign_number
+        sk = K.SigningKey.from_secret_exponent(0x1234567, curve, hashlib.sha1)
+        ps, rr = [], []
+
+        class PrivStub:
+            order = curve.order
+
+            def sign(self, number, k):
+                ps.append((number, k))
+                return E.Signature(333, 444)
+        sk.privkey = PrivStub()
+        K.randrange = lambda order, entropy=None: (rr.append((order, entropy)), 0x55555)[1]
+        out = sk.sign_number(NUM, ENT, KK)
+        vc.ground("sign_number: given-nonce-is-used-as-it-is(no-draw)", out == (333, 444) and ps == [(NUM, KK)] and rr == [], repr((ps, rr))[:200])
+        ps.clear()
+        out = sk.sign_number(NUM, ENT)
+        vc.ground("sign_number: without-a-nonce-one-draw-below-the-order-from-the-given-entropy", out == (333, 444)
+                  and rr == [(curve.order, ENT)] and ps == [(NUM, 0x55555)], repr((ps, rr))[:200])
+        for badk in (0, curve.order, -1):
+            o = vc.call(sk.sign_number, NUM, ENT, badk)
+            vc.ground("sign_number: nonce-outside-1..n-1-is-refused[%s]" % ("0" if badk == 0 else "n" if badk > 0 else "-1"),
+                      not o.returned and ps[-1:] != [(NUM, badk)], repr(o.exc))
+        # --- sign_digest_deterministic (with one retry after r or s == 0)
+        sk = K.SigningKey.from_secret_exponent(0x1234567, curve, hashlib.sha1)
+        gk, sd, se = [], [], []
+        K.rfc6979.generate_k = lambda *a, **k: (gk.append(_bind("gk", ("order", "secexp", "hash_func", "data", "retry_gen", "extra_entropy"), a, k)),
+                                                 0x9000 + len(gk))[1]
+
+        def sign_digest_stub(*a, **k):
+            c = _bind("sd", ("digest", "entropy", "sigencode", "k", "allow_truncate"), a, k)
+            sd.append(c)
+            if len(sd) == 1:
+                raise E.RSZeroError("r or s is zero")
+            return c["sigencode"](555, 666, curve.order)
+        sk.sign_digest = sign_digest_stub
+        out = sk.sign_digest_deterministic(DIG, hashlib.sha512, lambda r, s, order: (se.append((r, s, order)), "ENC2")[1], XE, False)
+        ok_gk = len(gk) == 2 and all(g.get("order") == curve.order and g.get("secexp") == 0x1234567 and g.get("hash_func") is hashlib.sha512
+                                     and g.get("data") == DIG and g.get("extra_entropy") == XE for g in gk) \
+            and [g.get("retry_gen") for g in gk] == [0, 1]
+        vc.ground("sign_digest_deterministic: nonce=generate_k(order,secret,hash,digest,retry,extra-entropy),retry-counter-0,1..", ok_gk, repr(gk)[:300])
+        vc.ground("sign_digest_deterministic: signs-this-digest-with-exactly-that-nonce(allow_truncate-handed-over)",
+                  len(sd) == 2 and all(c.get("digest") == DIG and c.get("allow_truncate") is False for c in sd)
+                  and [c.get("k") for c in sd] == [0x9001, 0x9002] and all(c.get("entropy") is None for c in sd), repr(sd)[:300])
+        vc.ground("sign_digest_deterministic: encodes-the-(r,s)-of-the-successful-attempt", out == "ENC2" and se == [(555, 666, curve.order)], repr(se))
+        gk.clear()
+        sd.clear()
+        sd.append("skip-the-failing-first-attempt")
+        sk.sign_digest_deterministic(DIG)
+        vc.ground("sign_digest_deterministic: default-hash=the-key's", len(gk) == 1 and gk[0].get("hash_func") is hashlib.sha1, repr(gk)[:200])
+        # --- verify_digest
+        vk = K.SigningKey.from_secret_exponent(0x1234567, curve, hashlib.sha1).verifying_key
+        tc.clear()
+        ver, dec = [], []
+
+        class PubStub:
+            order = curve.order
+            verdict = True
+
+            def verifies(self, number, sig):
+                ver.append((number, sig.r, sig.s))
+                return self.verdict
+        vk.pubkey = PubStub()
+        sdec = lambda sig, order: (dec.append((sig, order)), (777, 888))[1]
+        out = vc.call(vk.verify_digest, b"SIGNATURE", DIG, sdec, True)
+        vc.ground("verify_digest: compares-the-number-of-this-digest-with-the-decoded-(r,s)", out.returned and out.value is True
+                  and dec == [(b"SIGNATURE", curve.order)] and ver == [(NUM, 777, 888)] and len(tc) == 1 and tc[0].get("digest") == DIG
+                  and tc[0].get("curve") is curve and tc[0].get("allow_truncate") is True, repr((out.exc, dec, ver, tc))[:300])
+        PubStub.verdict = False
+        out = vc.call(vk.verify_digest, b"SIGNATURE", DIG, sdec, True)
+        vc.ground("verify_digest: not-verified=>BadSignatureError", out.raised(K.BadSignatureError), repr(out.exc))
+        for exc in (D.UnexpectedDER("x"), U.MalformedSignature("y")):
+            def sdec_bad(sig, order, exc=exc):
+                raise exc
+            n0 = len(ver)
+            out = vc.call(vk.verify_digest, b"SIGNATURE", DIG, sdec_bad, True)
+            vc.ground("verify_digest: undecodable=>BadSignatureError-without-a-verdict[%s]" % type(exc).__name__,
+                      out.raised(K.BadSignatureError) and len(ver) == n0, repr(out.exc))
+    finally:
+        K._truncate_and_convert_digest, K.randrange, K.rfc6979.generate_k = saved["tc"], saved["rr"], saved["gk"]
+    vc.cover("digest-layer")
